@@ -16,7 +16,7 @@ class P21Error(Exception):
 TOKEN_RE = re.compile(rb"""
     (?P<ws>[ \t\r\n\f\v]+)
   | (?P<comment>/\*.*?\*/)
-  | (?P<str>'(?:[^']|'')*')
+  | (?P<str>'(?:\\S\\.|[^']|'')*')
   | (?P<bin>"[0-9A-Fa-f]*")
   | (?P<enum>\.[A-Za-z_][A-Za-z0-9_]*\.)
   | (?P<ref>\#[0-9]+)
